@@ -1205,16 +1205,13 @@ rrul_fill_mly(echs_instant_t *restrict tgt, size_t nti, rrulsp_t rr)
 
 	/* get m on track */
 	if (UNLIKELY(bui31_has_bits_p(rr->mon))) {
-		bitint_iter_t bm = 0UL;
-
-		/* check that some of the months are congruent m modulo inter */
-		while (bui31_next(&bm, rr->mon) &&
-		       ((m + 12U) - (bm - 1U)) % rr->inter);
-		if (UNLIKELY(!bm)) {
-			goto fin;
-		}
-		/* now skip to the first instance */
-		while (!bui31_has_bit_p(rr->mon, m)) {
+		/* skip to the first instance, stepping by inter the months
+		 * repeat after at most 12 steps so if none of them is in
+		 * mon by then none will ever be */
+		for (size_t i = 0U; !bui31_has_bit_p(rr->mon, m); i++) {
+			if (UNLIKELY(i >= 12U)) {
+				goto fin;
+			}
 			if ((m += rr->inter) > 12) {
 				m--;
 				y += m / 12;
